@@ -3971,6 +3971,12 @@ impl<'a> Parser<'a> {
                 Ok(ty)
             }
 
+            // readonly type operator: readonly T[], readonly [A, B]
+            TokenKind::Readonly => {
+                self.advance();
+                self.parse_primary_type()
+            }
+
             // infer keyword: infer R
             TokenKind::Infer => {
                 self.advance();
